@@ -275,6 +275,12 @@ class ElementTraits<std::index_sequence<I...>, Parameter...>
                 }
             }(),
             ...);
+        if (alignment < STORAGE_ELEMENT_ALIGNMENT)
+        {
+            // after a VaryingSize parameter the offset is only known relative to an address aligned to `alignment`
+            const auto remainder = offset % alignment;
+            padding = STORAGE_ELEMENT_ALIGNMENT - (remainder == 0 ? alignment : remainder);
+        }
         return {size, size + padding};
     }
 
